@@ -45,7 +45,7 @@ def main_log(prefix):
     return "\n".join(open(f, errors="replace").read() for f in logs), logs
 
 
-def normalise(txt, inp, outp, stdin_path, stdout_path, merge=True):
+def normalise(txt, inp, outp, stdin_path, stdout_path, merge=True, cwd=None):
     """system calls of the main thread -> operation alphabet of Model/Io.v (close, flush and the
     computation have no system call of their own; stat is reported separately)."""
     ops, fds, stats = [], {}, 0
@@ -68,7 +68,7 @@ def normalise(txt, inp, outp, stdin_path, stdout_path, merge=True):
             continue
         okret = ret not in ("?",) and int(ret) >= 0
         pm = re.search(r'"((?:[^"\\]|\\.)*)"', args)
-        path = os.path.normpath(pm.group(1)) if pm else None
+        path = os.path.normpath(os.path.join(cwd, pm.group(1)) if cwd else pm.group(1)) if pm else None
         which = "in" if path and inp and path == inp else ("out" if path and outp and path == outp else None)
         if inp and outp and inp == outp and which:
             which = "in"
@@ -126,7 +126,7 @@ class Scenario:
 
     def model_args(self):
         i = {"file": "path", "stdin": "stdin", "missing": "missing"}[self.in_kind]
-        o = {"inplace": "same", "out": "other", "dir": "other", "stdout": "stdout", "pretend": "none", "implicit": "same"}[self.route]
+        o = {"inplace": "same", "out": "other", "dir": "other", "dirsame": "same", "stdout": "stdout", "pretend": "none", "implicit": "same"}[self.route]
         return i, o, "1" if self.preserve and self.route in ("inplace", "out", "dir") else "0", {"improvable": "improved", "optimal": "same", "invalid": "err"}[self.cls]
 
 
@@ -157,6 +157,9 @@ SCENARIOS = [
     Scenario("stdin-implicit-invalid", "stdin", "implicit", False, "invalid"),
     Scenario("stdin-out-invalid", "stdin", "out", False, "invalid"),
     Scenario("missing-out", "missing", "out", True, "improvable"),
+    # --dir naming the directory the input already lives in, both given as relative paths: this IS an in-place run
+    Scenario("dirsame-optimal", "file", "dirsame", False, "optimal"),
+    Scenario("dirsame-improvable", "file", "dirsame", False, "improvable"),
 ]
 
 
@@ -167,7 +170,12 @@ class Sandbox:
         self.d = os.path.join(base, f"r{idx}")
         os.makedirs(self.d)
         self.sc = sc
+        self.cwd = None
         self.inp = os.path.join(self.d, "in.png")
+        if sc.route == "dirsame":
+            os.makedirs(os.path.join(self.d, "imgs"))
+            self.inp = os.path.join(self.d, "imgs", "in.png")
+            self.cwd = self.d
         self.stdin_path = self.stdout_path = None
         if sc.in_kind == "file":
             open(self.inp, "wb").write(data)
@@ -187,6 +195,9 @@ class Sandbox:
         elif sc.route == "dir":
             self.outp = os.path.join(self.d, "sub", "in.png")
             argv += ["--dir", os.path.join(self.d, "sub")]
+        elif sc.route == "dirsame":
+            self.outp = self.inp
+            argv += ["--dir", "imgs"]
         elif sc.route in ("stdout", "implicit"):
             if sc.route == "stdout":
                 argv += ["--stdout"]
@@ -196,9 +207,9 @@ class Sandbox:
         if sc.preserve and sc.route in ("inplace", "out", "dir"):
             argv += ["--preserve"]
         if sc.existing_dest:
-            open(self.outp, "wb").write(b"previous content of the destination")
+            open(self.outp, "wb").write(b"previous content of the destination, longer than any result " * 700)
             os.chmod(self.outp, 0o600)
-        argv.append(self.inp if sc.in_kind != "stdin" else "-")
+        argv.append(("imgs/in.png" if sc.route == "dirsame" else self.inp) if sc.in_kind != "stdin" else "-")
         self.argv = argv
         if self.stdout_path:
             open(self.stdout_path, "wb").close()
@@ -209,7 +220,7 @@ class Sandbox:
         cmd = ["strace", "-ff", "-o", prefix, "-e", "trace=" + SYSCALLS] + strace_args + [cli] + self.argv
         si = open(self.stdin_path, "rb") if self.stdin_path else subprocess.DEVNULL
         so = stdout_override if stdout_override is not None else (open(self.stdout_path, "r+b") if self.stdout_path else subprocess.PIPE)
-        p = subprocess.run(cmd, stdin=si, stdout=so, stderr=subprocess.PIPE, timeout=120)
+        p = subprocess.run(cmd, stdin=si, stdout=so, stderr=subprocess.PIPE, timeout=120, cwd=self.cwd)
         txt, logs = main_log(prefix)
         for f in logs:
             os.unlink(f)
@@ -285,8 +296,8 @@ def run(rep):
             idx += 1
             sb = Sandbox(base, sc, data, idx)
             rc, txt, se = sb.run(cli, [])
-            ops = normalise(txt, sb.inp, sb.outp, sb.stdin_path, sb.stdout_path)
-            raw_ops = normalise(txt, sb.inp, sb.outp, sb.stdin_path, sb.stdout_path, merge=False)
+            ops = normalise(txt, sb.inp, sb.outp, sb.stdin_path, sb.stdout_path, cwd=sb.cwd)
+            raw_ops = normalise(txt, sb.inp, sb.outp, sb.stdin_path, sb.stdout_path, merge=False, cwd=sb.cwd)
             n_wstdout, n_wfile = raw_ops.count("wstdout"), raw_ops.count("write")
             rep.evaluations += 1
             rep.count("scenario:" + sc.name)
@@ -296,7 +307,7 @@ def run(rep):
                 # decide whether the difference breaks the property: a write-phase call before the read phase is complete, or on a failed computation
                 first_w = next((i for i, o in enumerate(got_ops) if o.startswith(("create", "openw", "write", "wstdout", "chmod", "utimes", "other"))), None)
                 last_r = max((i for i, o in enumerate(got_ops) if o in ("read", "readstdin", "open")), default=-1)
-                if first_w is not None and (first_w < last_r or sc.cls == "invalid" or sc.route == "pretend" or (sc.cls == "optimal" and sc.route == "inplace")):
+                if first_w is not None and (first_w < last_r or sc.cls == "invalid" or sc.route == "pretend" or (sc.cls == "optimal" and sc.route in ("inplace", "dirsame"))):
                     rep.violation("C12:write-before-result:" + sc.name, f"{sc.name}: the process performs {got_ops}; a destination is opened/written although "
                                   f"the result is not (or never) complete; the model's plan is {model_ops(','.join(mtrace))}", {**desc, "impl_ops": got_ops})
                 else:
@@ -308,10 +319,10 @@ def run(rep):
             aft = sb.after()
             want = want_of[sc.cls]
             # final state
-            if mresult == "ok" and sc.route in ("out", "dir", "inplace"):
+            if mresult == "ok" and sc.route in ("out", "dir", "inplace", "dirsame"):
                 rel = os.path.relpath(sb.outp, sb.d)
                 exp = data if sc.cls == "optimal" else want
-                if sc.cls == "optimal" and sc.route == "inplace":
+                if sc.cls == "optimal" and sc.route in ("inplace", "dirsame"):
                     if changed(sb.before, aft):
                         rep.violation("C12:touched-without-improvement", f"{sc.name}: nothing can be improved in place but {changed(sb.before, aft)} changed (content, mode or mtime)", desc)
                 else:
@@ -322,7 +333,7 @@ def run(rep):
                         src = sb.before["in.png"]
                         if g[1] != src[1] or g[2] != src[2]:
                             rep.violation("C12:preserve", f"{sc.name}: --preserve did not copy mode/mtime ({oct(g[1])} vs {oct(src[1])}, {g[2]} vs {src[2]})", desc)
-                    if sc.route != "inplace" and sc.in_kind == "file" and aft.get("in.png") != sb.before["in.png"]:
+                    if sc.route not in ("inplace", "dirsame") and sc.in_kind == "file" and aft.get("in.png") != sb.before["in.png"]:
                         rep.violation("C12:input-touched", f"{sc.name}: the input file changed although another destination was named", desc)
             elif mresult == "ok" and sc.route in ("stdout", "implicit"):
                 g = aft.get("stdout.bin")
@@ -349,7 +360,7 @@ def run(rep):
             if "readstdin" in mtrace:
                 inj.append(("readstdin", lambda b: ["-P", b.stdin_path, "-e", "inject=read:error=EIO:when=1"], "read"))
             if any(o.startswith("create") for o in mtrace):
-                when = "when=2" if sc.route == "inplace" else "when=1"     # in place: the first openat of the path is the read
+                when = "when=2" if sc.route in ("inplace", "dirsame") else "when=1"     # in place: the first openat of the path is the read
                 inj.append(("create", lambda b, when=when: ["-P", b.outp, "-e", f"inject=openat:error=EACCES:{when}"], "create"))
                 for kw in range(1, max(1, n_wfile) + 1):      # every write call of the fault-free run, the last one included
                     inj.append((f"write#{kw}", lambda b, kw=kw: ["-P", b.outp, "-e", f"inject=write:error=ENOSPC:when={kw}"], "write"))
@@ -386,7 +397,7 @@ def run(rep):
                     ch = changed(sb.before, aft, ignore=("sub/",))
                     if ch:
                         rep.violation("C12:touched-before-result:" + name, f"{sc.name}: {name} failed, yet {ch} changed", d2)
-                elif sc.route != "inplace" and sc.in_kind == "file" and aft.get("in.png") != sb.before["in.png"]:
+                elif sc.route not in ("inplace", "dirsame") and sc.in_kind == "file" and aft.get("in.png") != sb.before["in.png"]:
                     rep.violation("C12:input-touched", f"{sc.name}: the input changed after a failing {name} on another destination", d2)
                 shutil.rmtree(sb.d, ignore_errors=True)
 
@@ -427,7 +438,7 @@ def run(rep):
                 else:
                     rep.nontriv((sc.name, "kill", nm, k))
                 # had the process already entered its write phase in this run? (then the crash point is past the property's scope)
-                ops2 = normalise(txt, sb.inp, sb.outp, sb.stdin_path, sb.stdout_path)
+                ops2 = normalise(txt, sb.inp, sb.outp, sb.stdin_path, sb.stdout_path, cwd=sb.cwd)
                 wrote = any(o.startswith(("create", "write", "wstdout", "chmod", "utimes")) for o in ops2)
                 aft = sb.after()
                 ch = changed(sb.before, aft, ignore=("sub/",))
@@ -435,6 +446,38 @@ def run(rep):
                     rep.violation("C12:changed-by-crash:" + sc.name, f"{sc.name}: killed at the {k}-th {nm} call (before any write-phase call) and {ch} differ from before the run",
                                   {**desc, "kill_at": [nm, k]})
                 shutil.rmtree(sb.d, ignore_errors=True)
+        # ---------------- short writes: a large result (several write calls / a write larger than std's buffer) under a file-size
+        #                  limit. Whatever happens, exit status 0 must mean that the destination holds the complete result.
+        import resource
+        tokb, _ = imggen.gen(rng, 2, 8, 200, 160, False, "fewcolors", "none", 16)
+        big = e2e.png_from_token(rng, tokb, simple=True)
+        rb = vlib.run_cases(impl, [f"a opt {opts} {big.hex()}"])["a"]
+        if rb.startswith("ok ") and len(rb) // 2 > 8300 and len(rb) // 2 - 1 < len(big):
+            big_out = bytes.fromhex(rb[3:])
+            for route in ("out", "inplace", "stdout"):
+                sc = Scenario(f"{route}-improvable-big", "file", route, False, "improvable")
+                for lim in sorted({1, 4096, 8192, 8193, len(big_out) // 2, len(big_out) - 1}):
+                    idx += 1
+                    sb = Sandbox(base, sc, big, idx)
+
+                    def limit(lim=lim):
+                        resource.setrlimit(resource.RLIMIT_FSIZE, (lim, lim))
+                    so = open(sb.stdout_path, "r+b") if sb.stdout_path else subprocess.PIPE
+                    p = subprocess.run([cli] + sb.argv, stdin=subprocess.DEVNULL, stdout=so, stderr=subprocess.PIPE, timeout=120, preexec_fn=limit)
+                    if hasattr(so, "close"):
+                        so.close()
+                    rep.evaluations += 1
+                    rep.count("fault:file-size-limit")
+                    rep.nontriv((sc.name, "fsize", lim))
+                    dest = sb.stdout_path if sb.stdout_path else sb.outp
+                    got = open(dest, "rb").read() if os.path.exists(dest) else None
+                    if p.returncode == 0 and got != big_out:
+                        rep.violation("C12:error-not-reported:short-write", f"{sc.name}: with a file-size limit of {lim} bytes the destination holds "
+                                      f"{None if got is None else len(got)} of {len(big_out)} bytes but the exit status is 0",
+                                      {"scenario": sc.name, "argv": sb.argv, "input_hex": big.hex(), "rlimit_fsize": lim, "cases": []})
+                    shutil.rmtree(sb.d, ignore_errors=True)
+        else:
+            rep.notes.append("no large improvable input for the short-write exploration")
     finally:
         shutil.rmtree(base, ignore_errors=True)
     rep.sample({"scenario": SCENARIOS[0].name, "model": "io_plan path same 0 improved -"})
